@@ -2,7 +2,7 @@
 import io, traceback
 from fractions import Fraction as Fr
 from harness import gterm as G, geom
-from harness.fonts import build_font, gen_component_font, jsonable
+from harness.fonts import build_font, gen_component_font, jsonable, number_range_error
 
 PID = "C01"
 LEVEL_TEXT = ("Proof: Coq theorems, for all glyph sets / component depths / non-singular affine transforms, that the pen chain "
@@ -330,7 +330,8 @@ def explore(ctx):
                     big = big or any(abs(v) > 16000 for sgm in geom.ref_resolve(by, g["name"]) for pt in flat(sgm)[1] for v in pt)
                 except Exception:
                     pass
-            if big and isinstance(e, (ValueError, OverflowError)) or "does not fit" in str(e):
+            # (a number-range error counts as "no font exists" only when the SOURCE's own resolved outline is that large)
+            if big and (isinstance(e, (ValueError, OverflowError)) or number_range_error(e)) or "does not fit" in str(e):
                 # nested scaled components pushed a coordinate beyond what head/CFF numbers can hold: no font exists
                 ctx.klass("outside_opentype_number_range_rejected")
                 continue
